@@ -104,20 +104,24 @@ func (n *node[T]) addSegment(seg *syntax.Segment) (*node[T], error) {
 		return nn, nil
 	}
 
+	// seg.Value[:l] 与 child.segment.Value[:l] 暨 parent.Value 是相同的，
+	// 剩余部分必须在拆分节点之前完成解析，否则出错时节点已经被修改。
+	var s *syntax.Segment
+	if len(seg.Value) != l {
+		var err error
+		if s, err = n.root.interceptors.NewSegment(seg.Value[l:]); err != nil {
+			return nil, err
+		}
+	}
+
 	parent, err := splitNode(child, l)
 	if err != nil {
 		return nil, err
 	}
 
 	// seg 与 parent 重叠
-	if len(seg.Value) == l {
+	if s == nil {
 		return parent, nil
-	}
-
-	// seg.Value[:l] 与 child.segment.Value[:l] 暨 parent.Value 是相同的
-	s, err := n.root.interceptors.NewSegment(seg.Value[l:])
-	if err != nil {
-		return nil, err
 	}
 	return parent.addSegment(s)
 }
